@@ -280,7 +280,7 @@ def main():
             engine.phase(ck, 'E1 N=%d inside and after included files (depth 1, 2; sections re-entered from another source)' % dev, shard_include, shards, variants=9)
             continue
         shards = []
-        for sid in (USE if not (quick and dev >= 2) else USE[:6]):
+        for sid in (USE if not (quick and dev >= 2) else USE[:4]):
             sch = FAM[sid]
             alpha = words_for(sch)
             for flags in ((0, CFGF['COMMENTS']) if dev <= 1 else (0,)):
